@@ -183,4 +183,26 @@ def readFullChunks : Nat → Chunks → Option (Bytes × Chunks)
     else some (c.take (n + 1), c.drop (n + 1) :: cs)
 termination_by n cs => cs.length
 
+/-! ## encryption enabled in mid-stream -/
+
+/-- read exactly `k` packets, returning them and the untouched rest of the stream -/
+def readPackets (cfg : Cfg) (Z : Bytes → Option Bytes) : Nat → Bytes → Except DErr (List Bytes × Bytes)
+  | 0, s => .ok ([], s)
+  | k + 1, s =>
+    match readPacket cfg Z (s.length + 1) 0 s with
+    | .error e => .error e
+    | .ok (p, r) =>
+      match readPackets cfg Z k r with
+      | .error e => .error e
+      | .ok (ps, r') => .ok (p :: ps, r')
+
+/-- Encryption enabled in mid-stream (`reader.EnableEncryption` after `k` plaintext packets, as in the login
+    flow): the decrypting reader is put ON TOP of the read buffer, so every byte not yet consumed — whether or
+    not it was already read from the socket — is decrypted.  In the model: decrypt the rest of the stream. -/
+def decodeSwitch (cfg : Cfg) (Z : Bytes → Option Bytes) (E : Bytes → Bytes) (iv : Bytes) (k fuel : Nat)
+    (s : Bytes) : List Bytes × Option DErr :=
+  match readPackets cfg Z k s with
+  | .error e => ([], some e)
+  | .ok (ps, r) => let (qs, e) := decodeAll cfg Z fuel (cfb8Dec E iv r); (ps ++ qs, e)
+
 end Gate.C01
